@@ -182,6 +182,42 @@ def run(ctx):
         inloop = [c for c in all_pools if any(c.block in natural_loop(b, hd) for hd in loop_headers(b))]
         r4.check(bool(inloop), "%s:all-pools" % nm, "the no-argument form iterates over get_all_pools()", "the no-argument form of %s does not visit every pool" % tag)
         r4.check(bool(named), "%s:named-pool" % nm, "the (db,user) form acts on get_pool(db,user)", "the named form of %s does not act on the looked-up pool" % tag)
+        # `every pool` is for the command without an argument only: the branch that leaves the argument list empty is taken exactly when the command
+        # is one word long. (`PAUSE db, user` arrives as three words; treated as `no argument` it pauses - and RESUME db, user resumes - every pool)
+        arg_ok = None
+        for sw in switches(b):
+            if sw.ty != "bool":
+                continue
+            for o in origins(b, b.blocks[sw.block]["term"]["op"]):
+                if o.kind != "bin" or o.what not in ("Eq", "Ne", "Gt", "Ge", "Lt", "Le"):
+                    continue
+                ea, eb = o.extra["a"], o.extra["b"]
+                ka, kb = const_int(ea), const_int(eb)
+                other = eb if ka is not None else ea
+                k = ka if ka is not None else kb
+                if k is None or not any(oo.kind == "call" and oo.call.name.endswith("Vec::len") for oo in origins(b, other)):
+                    continue
+                te, fe = sw.bool_edges()
+                if o.neg:
+                    te, fe = fe, te
+                splits = [c.block for c in b.calls("re:str::<impl str>::split$")]
+                t_has = any(x in b.reach([te[1]], avoid_blocks=[fe[1]]) for x in splits)
+                f_has = any(x in b.reach([fe[1]], avoid_blocks=[te[1]]) for x in splits)
+                if t_has == f_has:
+                    continue
+                import operator
+                opf = {"Eq": operator.eq, "Ne": operator.ne, "Gt": operator.gt, "Ge": operator.ge, "Lt": operator.lt, "Le": operator.le}[o.what]
+                def cond(n, swapped=(ka is not None)):
+                    return opf(k, n) if swapped else opf(n, k)
+                # number of words for which the branch without the split (empty argument list => all pools) is taken
+                empty_for = [n for n in range(1, 7) if cond(n) != t_has]
+                arg_ok = (empty_for == [1], empty_for)
+        if arg_ok is None:
+            r4.missing("%s: test on the number of words of the command that decides between `all pools` and the argument" % nm)
+        else:
+            r4.check(arg_ok[0], "%s:all-pools-only-without-argument" % nm, "admin %s acts on every pool only when the command is one word long" % tag,
+                     "admin %s treats a command of %s words as `no argument` and acts on every pool: `%s db, user` (three words, the spelling of the usage text) %s" % (tag, [n for n in arg_ok[1] if n != 1], tag,
+                     "pauses all pools" if nm == "pause" else "resumes all pools - clients of the other paused pools start transactions on servers that are to be quiet"))
         # replies end with Z
         putz = [c for c in b.calls("re:put_u8$") if const_int(c.args[1]) == 90]
         wr = b.calls("pgcat::messages::write_all_half")
